@@ -14,6 +14,15 @@ def is_nan(x):
     return isinstance(x, float) and x != x
 
 
+def _off(inp, i):
+    """offset of the i-th time point of the stretch from its first one: contiguous, holed after the first point, or every second point"""
+    if inp.get("gapped"):
+        return i if i == 0 else i + 1
+    if inp.get("strided"):
+        return 2 * i
+    return i
+
+
 class C13(Harness):
     pid = "C13"
     labels = (
@@ -162,6 +171,8 @@ class C13(Harness):
             inp["z"] = fresh_reals(ctx, "z", Ln)
             inp["d"] = ctx.fresh_int("d")
             inp["gapped"] = bool(ctx.fresh_bool("gapped")) if Ln >= 2 else False
+            # every second time point, as an arithmetic RangeIndex (what y.iloc[::2] of a default-indexed series carries)
+            inp["strided"] = bool(ctx.fresh_bool("strided")) if (Ln >= 2 and not inp["gapped"]) else False
             if k == "deseason":
                 inp["with_update"] = bool(ctx.fresh_bool("with_update"))
                 if inp["with_update"]:
@@ -271,6 +282,8 @@ class C13(Harness):
         if inp.get("gapped"):
             # a stretch with a hole after its first time point (e.g. the forecasts of a gapped horizon)
             z = pd.Series(list(inp["z"]), index=pd.Index([s0 + inp["d"] + (i if i == 0 else i + 1) for i in range(len(inp["z"]))]))
+        elif inp.get("strided"):
+            z = pd.Series(list(inp["z"]), index=pd.RangeIndex(s0 + inp["d"], s0 + inp["d"] + 2 * len(inp["z"]), 2))
         else:
             z = ser(inp["z"], s0 + inp["d"])
         from sklearn.base import BaseEstimator, TransformerMixin
@@ -403,7 +416,7 @@ class C13(Harness):
         n_tr = len(inp["ytr"])
         P.check("same-time-index", len(zt_i) == len(z) and len(bk_i) == len(z))
         for i in range(min(len(z), len(zt_i), len(bk_i))):
-            off_i = (i if i == 0 else i + 1) if inp.get("gapped") else i
+            off_i = _off(inp, i)
             P.eq("same-time-index", zt_i[i], s0 + d + off_i)
             P.eq("same-time-index", bk_i[i], s0 + d + off_i)
             if k not in ("adaptor", "passthrough"):  # there the wrapped stub is not an inverse pair: data flow is checked below
@@ -422,7 +435,7 @@ class C13(Harness):
                 if not seasonal:
                     P.eq("conditional-not-seasonal-is-identity", zt[i], z[i])
                     continue
-                ph = (d + ((i if i == 0 else i + 1) if inp.get("gapped") else i)) % sp  # position modulo the period relative to the training series
+                ph = (d + _off(inp, i)) % sp  # position modulo the period relative to the training series
                 phc = int(ph) if P.sym else ph
                 want = z[i] - sig[phc] if cell["model"] == "additive" else z[i] / sig[phc]
                 P.eq(lab, zt[i], want)
@@ -457,7 +470,7 @@ class C13(Harness):
             fr = out["frame"]
             P.check("same-time-index", fr["shape"] == [len(z), 2] and len(fr["zt_index"]) == len(z) and len(fr["back_index"]) == len(z), {"what": "two-column series", "shape": fr["shape"]})
             for i in range(min(len(z), len(fr["zt_index"]), len(fr["back_index"]))):
-                off_i = (i if i == 0 else i + 1) if inp.get("gapped") else i
+                off_i = _off(inp, i)
                 P.eq("same-time-index", fr["zt_index"][i], s0 + d + off_i, {"what": "two-column series"})
                 P.eq("same-time-index", fr["back_index"][i], s0 + d + off_i, {"what": "two-column series (inverse)"})
             P.check("adaptor-columnwise", out["fitshape"] == [n_tr, 1])
